@@ -135,11 +135,30 @@ def plan(prop, tier):
             jobs += [gen_job("c18", "native-release", math.ceil(total / 16), 16, timeout=900), gen_job("c18", "asan", math.ceil(total / 16), 16, timeout=1800), gen_job("c18", "miri", 25, 16, timeout=2400)]
         return dict(jobs=jobs, level="fault_enumeration", rule=rule, floor_cells=["refuse:none", "refuse:setup", "refuse:feature-2", "refuse:feature-4", "refuse:feature-8", "refuse:feature-128", "refuse:mmap-1", "refuse:mmap-2", "refuse:mmap-3", "refuse:register", "result:ok", "result:err", "disabled-then-enabled", "granted-sq:4"],
                     floor_evaluations=60000, exhaustive=True, assumptions=SIMK_ASSUMPTIONS + ["the madvise(MADV_DONTFORK) failure branch of the real mmap wrapper is bypassed by the hook and not covered"], also=[])
+    if prop == "C08":
+        rule = ("(a) random single-threaded histories with single-shot and multishot pool reads/receives, kept/dropped ReadBufs, operations abandoned in flight (pools of 1-8 buffers): pool ledger in the simulated kernel (every buffer-ring entry a10 publishes is checked: id handed out, own address/length, tail-head <= size), checksums of held ReadBufs, conservation at the end; "
+                "(b) marathon of 70000 read/release cycles so the 16-bit ring tail wraps; (c) baton-scheduler schedules: 2-4 threads releasing all buffers of a pool concurrently while a simulated kernel thread audits the ring at every scheduling point (incl. before the tail store); distinct = event-trace / switch-sequence hash")
+        if tier == "quick":
+            jobs = [gen_job("c08", "native-debug", 2500, 8), gen_job("c08wrap", "native-debug", 1, 2, timeout=600), gen_job("c08mt", "native-debug", 400, 8, timeout=600)]
+        else:
+            jobs = [gen_job("c08", "native-debug", 40000, 16, timeout=1800), gen_job("c08", "native-release", 40000, 16, timeout=1800), gen_job("c08wrap", "native-release", 2, 8, timeout=1800, params={"cycles": "200000"}),
+                    gen_job("c08mt", "native-debug", 6000, 16, timeout=3000), gen_job("c08", "asan", 3000, 16, timeout=1800), gen_job("c08", "miri", 10, 16, timeout=2400), gen_job("c08free", "tsan", 30, 8, timeout=3000)]
+        return dict(jobs=jobs, level="exploration", rule=rule, floor_cells=["kind:ReadPool", "kind:MultishotRead", "kind:MultishotRecv", "simk_pbuf_selects", "simk_pbuf_returns", "marathon_tail_wraps", "release:pool=1", "release:pool=8", "drop:Multi:multishot-mid-stream"],
+                    floor_evaluations=5000, assumptions=SIMK_ASSUMPTIONS, also=[])
+    if prop == "C11":
+        rule = ("baton-scheduler schedules of one ring thread calling Ring::poll(None) against 1-3 threads calling SubmissionQueue::wake, families: S1 concurrent wakes, S2 wakes completed before the poll starts, S3 loop where wake i+1 is issued only after poll i returned; "
+                "default, kernel-thread (simulated SQPOLL thread) and single-issuer rings (IORING_REGISTER_SEND_MSG_RING path), optionally with a full submission queue when the wake message must be queued; oracle: a poll blocked in the simulated kernel with nothing to deliver once every wake() returned (no runnable thread left) is a lost wake-up; wake() after the Ring was dropped must be harmless; distinct = switch-sequence hash + configuration")
+        if tier == "quick":
+            jobs = [gen_job("c11", "native-debug", 1500, 8, timeout=600)]
+        else:
+            jobs = [gen_job("c11", "native-debug", 40000, 16, timeout=3000), gen_job("c11", "native-release", 40000, 16, timeout=3000), gen_job("c11", "asan", 2000, 16, timeout=3000), gen_job("c11free", "tsan", 200, 8, timeout=3000)]
+        return dict(jobs=jobs, level="exploration", rule=rule, floor_cells=["family:S1-concurrent", "family:S2-wake-before-poll", "family:S3-poll-loop", "ring:default", "ring:kernel-thread", "ring:single-issuer", "queue-full-at-wake", "wake-after-ring-dropped", "sched_kernel_blocks", "simk_msg_rings"],
+                    floor_evaluations=2000, assumptions=SIMK_ASSUMPTIONS + ["liveness is judged in the bounded form 'a state in which no thread can run' under the scheduler, not by wall-clock time"], also=[])
     return None
 
 
 ENGINES = [
-    dict(name="baton-scheduler", path="/verif/harness/src/sched.rs, src/props/mt.rs", serves_properties=["C04"], kind_free_text="runtime monitoring: real threads, one running at a time, seeded scheduler switching at the cfg(a10_verif) hook points; reproducible schedules"),
+    dict(name="baton-scheduler", path="/verif/harness/src/sched.rs, src/props/mt.rs", serves_properties=["C04", "C08", "C11"], kind_free_text="runtime monitoring: real threads, one running at a time, seeded scheduler switching at the cfg(a10_verif) hook points; reproducible schedules"),
     dict(name="pure-sweep", path="/verif/harness/src/props/c14.rs", serves_properties=["C14"], kind_free_text="differential sweep of pure functions against a reference model, natively and under Miri"),
     dict(name="simk-explorer", path="/verif/harness (scenarios c01..c09 on src/simk, src/world.rs, src/props/generic.rs)", serves_properties=["C01", "C02", "C03", "C05", "C06", "C07", "C09", "C10", "C12", "C15", "C18"], kind_free_text="runtime monitoring: real a10 driven single-threaded against an in-process simulated io_uring kernel with adversarial completion timing; boundary oracles (allocator monitor, waker ledger, descriptor ledger, request log)"),
 ]
@@ -185,6 +204,12 @@ CLAIMS = {
     "C18": dict(level="fault_enumeration", engine="simk-explorer", design_ref="DESIGN.md 4 C18", note=_NOTE,
                 technique="exhaustive enumeration of configurations x kernel refusal points with descriptor/mapping/allocation ledgers and parameter-block decoding",
                 text="Every configuration combination is built against every scripted kernel answer; a failing build must leave no ring descriptor, no mapping and no allocation behind, a successful one must have passed exactly the configured flags/sizes/cpu/idle/wq_fd to the kernel, must use the granted (not requested) sizes and seeded ring offsets (proved by a read round trip across the index wrap), must refuse submissions while disabled and work after enable(). Exhaustive within the listed space."),
+    "C08": dict(level="exploration", engine="simk-explorer + baton-scheduler", design_ref="DESIGN.md 4 C08", note=_NOTE,
+                technique="pool ledger in the simulated kernel (owner of the buffer-ring head) + checksums of held buffers + conservation check; controlled schedules for concurrent releases; wrap marathon",
+                text="The simulated kernel owns the kernel head of every buffer ring and audits every entry a10 publishes (buffer handed out exactly once, own address and length, never more entries than the pool has), the harness checksums every ReadBuf it holds, and at the end of each history every buffer must be the kernel's again. Concurrent releases run under the seeded scheduler with the kernel looking at the ring between the entry write and the tail store. Known findings: buffers selected for abandoned/uncollected operations are lost (KNOWN_FINDINGS.txt)."),
+    "C11": dict(level="exploration", engine="baton-scheduler", design_ref="DESIGN.md 4 C11", note=_NOTE + "; bounded-progress restatement of liveness",
+                technique="controlled thread schedules with deadlock detection: a Ring::poll parked in the simulated kernel while no other thread can run is a lost wake-up",
+                text="Three scenario families make 'every poll has a dedicated wake' true by construction, so a poll that blocks forever in the simulated kernel after all wake() calls returned is a lost wake-up; spurious early returns are allowed. All three ring configurations that support waking are covered, including the synchronous REGISTER_SEND_MSG_RING path and the retry loop when the queue is full."),
     "C09": dict(level="exploration", engine="simk-explorer", design_ref="DESIGN.md 4 C09", note=_NOTE,
                 technique="fault injection of EINTR/ECANCELED completions with byte-for-byte comparison of re-issued submissions",
                 text="More than half of all completions in this scenario are EINTR/ECANCELED; the caller must never observe them, every re-issued submission must be byte-identical (opcode, fd, flags, offsets, addresses, lengths, user_data) to the first, failed attempts scribble the buffers so mixed data would show, and the value must be the last attempt's."),
